@@ -346,7 +346,7 @@ func load(dir string) {
 	rep.Load = "ok"
 	rep.Dump = dumpCatalog(engine.Catalog())
 	rep.Sha = rep.Dump.sha()
-	rep.Followup, rep.FollowE = probe(client, fmt.Sprintf("after-load-%d", rep.Dump.OplogLen), 2*time.Second)
+	rep.Followup, rep.FollowE = probe(client, fmt.Sprintf("after-load-%d", rep.Dump.OplogLen), 15*time.Second)
 	if rep.Followup == "ok" {
 		want := dumpCatalog(engine.Catalog()).sha()
 		engine.Close()
@@ -457,7 +457,7 @@ func runFail(dir string, n int, seed int64, k int, after bool, mode string) (fc 
 			})
 		} else {
 			// every driver call is its own commit
-			ctx, cancel := context.WithTimeout(context.Background(), 2*time.Second)
+			ctx, cancel := context.WithTimeout(context.Background(), 15*time.Second)
 			var errs []error
 			_ = step(ctx, client, c, seed, &errs)
 			cancel()
@@ -488,7 +488,7 @@ func runFail(dir string, n int, seed int64, k int, after bool, mode string) (fc 
 			fc.ReloadNew = after && got == fs.mem && got != fs.last
 			e2.Close()
 		}
-		fc.Probe, fc.ProbeErr = probe(client, fmt.Sprintf("probe-%d", k), 2*time.Second)
+		fc.Probe, fc.ProbeErr = probe(client, fmt.Sprintf("probe-%d", k), 15*time.Second)
 	}
 	final := dumpCatalog(engine.Catalog())
 	fc.Docs = final.docCount()
@@ -523,7 +523,7 @@ func failstore(dir string, n int, seed int64) {
 				select {
 				case fc := <-ch:
 					_ = out.Encode(fc)
-				case <-time.After(20 * time.Second):
+				case <-time.After(40 * time.Second):
 					_ = out.Encode(failCase{Kind: "case", K: k, After: after, Mode: mode, Reported: true, CatalogOK: true, ReloadOK: true, Probe: "timeout",
 						ProbeErr: "the case did not finish within 20 s", Detail: "writes after the failed commit are blocked (the writer slot was not released)"})
 					_ = out.Encode(map[string]interface{}{"kind": "summary", "cases": total, "aborted": true})
